@@ -106,7 +106,8 @@ type Key = Vec<(u32, u32)>;
 
 fn check_form(kind: &str, n: usize, k: &Key) -> Verdict {
     match guarded(|| {
-        let own = vars_of(&k.iter().flat_map(|(p, q)| [*p, if kind == "soes" { 0 } else { *q }]).collect::<Vec<u32>>());
+        // contradictory (zero) cubes contribute no variable to the probe set
+        let own = vars_of(&k.iter().filter(|(p, q)| kind == "soes" || p & q == 0).flat_map(|(p, q)| [*p, if kind == "soes" { 0 } else { *q }]).collect::<Vec<u32>>());
         match kind {
             "sop" => {
                 let s = Sop::from_cubes(n, k.iter().map(|(p, q)| cube_of(*p, *q)).collect());
@@ -271,6 +272,113 @@ pub fn run(run: &Run) {
             });
         }
     }
+    // many variables in one term: every exclusive cube over variables 0..15 (long texts, one- and
+    // two-digit indices mixed); an XOR formula is affine, so zero + the unit assignments decide it
+    run.section("ECUBES all 2^16 variable sets over x0..x15, both polarities: text parsed and decided on the affine basis", true, "complete over the subsets of 16 variables; affine functions are determined by the all-zero and the 16 single-variable assignments (two backgrounds)", 1 << 17, 256, |r, l| {
+        for idx in r {
+            let (vars, x) = ((idx >> 1) as u32, idx & 1 != 0);
+            l.states += 1;
+            let res = guarded(|| {
+                let e = ecube_of(vars, x);
+                let t = e.to_string();
+                let f = match parse_formula(&t) {
+                    Ok(f) => f,
+                    Err(err) => return fail("a formula of the grammar", format!("{:?}: {}", t, err)),
+                };
+                let affine = match &f {
+                    Formula::Xor(v) => v.iter().all(|a| matches!(a, Formula::Var(_) | Formula::Const(_))),
+                    Formula::Var(_) | Formula::Const(_) => true,
+                    _ => false,
+                };
+                if !affine {
+                    return fail("an XOR of variables and constants", format!("{:?}", t));
+                }
+                let mut probe: Vec<u64> = vec![0];
+                let mut mentioned = Vec::new();
+                f.vars_in_order(&mut mentioned);
+                for v in (0..16usize).chain(mentioned.iter().copied()) {
+                    probe.push(1u64 << v);
+                }
+                for bg in [0u64, 0xffff_ffff] {
+                    for p in &probe {
+                        let m = p ^ bg;
+                        if f.eval(m) != e.value(m as usize) {
+                            return fail(format!("the text evaluates to value({:#x}) = {}", m, e.value(m as usize)), format!("{:?} evaluates to {}", t, f.eval(m)));
+                        }
+                    }
+                }
+                if !increasing(&f) {
+                    return fail("variables appear in increasing index order", format!("{:?}", t));
+                }
+                Ok(())
+            });
+            let v = match res {
+                Ok(v) => v,
+                Err(p) => fail("Ecube::to_string returns", p),
+            };
+            rec(l, v, format!("ecube16|{:05x}|{}", vars, x as u8), "ecube/many-variables", format!("kind=ecube;p={:x};q={}", vars, x as u8), idx);
+        }
+    });
+    // cubes with many literals: for every subset m of x0..x13: the minterm-like cube (pos = m, neg = rest)
+    // and the all-positive cube; a monomial is decided by its satisfying assignment and the single flips
+    run.section("CUBES with up to 14 literals: for every subset of x0..x13 the cubes (pos=m, neg=rest) and (pos=m): text parsed and decided on the satisfying assignment and its single flips", true, "complete over the 2^14 subsets, two cube shapes each", 1 << 15, 256, |r, l| {
+        for idx in r {
+            let m = (idx >> 1) as u32;
+            let (p, q) = if idx & 1 == 0 { (m, !m & 0x3fff) } else { (m, 0) };
+            l.states += 1;
+            let res = guarded(|| {
+                let c = cube_of(p, q);
+                let t = c.to_string();
+                let f = match parse_formula(&t) {
+                    Ok(f) => f,
+                    Err(err) => return fail("a formula of the grammar", format!("{:?}: {}", t, err)),
+                };
+                let monomial = match &f {
+                    Formula::And(v) => v.iter().all(|a| matches!(a, Formula::Var(_)) || matches!(a, Formula::Not(b) if matches!(**b, Formula::Var(_)))),
+                    Formula::Var(_) | Formula::Const(_) => true,
+                    Formula::Not(b) => matches!(**b, Formula::Var(_)),
+                    _ => false,
+                };
+                if !monomial {
+                    return fail("a product of literals", format!("{:?}", t));
+                }
+                let mut mentioned = Vec::new();
+                f.vars_in_order(&mut mentioned);
+                for bg in [0u64, 0xffff_c000] {
+                    let sat = (p as u64) | (bg & !(q as u64));
+                    let mut probe = vec![sat];
+                    for v in (0..14usize).chain(mentioned.iter().copied()) {
+                        probe.push(sat ^ (1u64 << v));
+                    }
+                    for a in probe {
+                        if f.eval(a) != c.value(a as usize) {
+                            return fail(format!("the text evaluates to value({:#x}) = {}", a, c.value(a as usize)), format!("{:?} evaluates to {}", t, f.eval(a)));
+                        }
+                    }
+                }
+                if !increasing(&f) {
+                    return fail("variables appear in increasing index order", format!("{:?}", t));
+                }
+                Ok(())
+            });
+            let v = match res {
+                Ok(v) => v,
+                Err(p) => fail("Cube::to_string returns", p),
+            };
+            rec(l, v, format!("cube14|{:04x}|{:04x}", p, q), "cube/many-literals", format!("kind=cube;p={:x};q={:x}", p, q), idx);
+        }
+    });
+    // 32-variable forms may contain the canonical zero cube
+    run.section_seq("FORMS over 32 variables containing the zero cube: Sop / Esop from_cubes(32, lists of <= 2 over {zero, 1, x0, !x31, x5x31})", true, "the only size at which from_cubes accepts the zero cube", |l| {
+        let z = (!0u32, !0u32);
+        let terms: Vec<(u32, u32)> = vec![z, (0, 0), (1, 0), (0, 1 << 31), ((1 << 5) | (1 << 31), 0)];
+        for kind in ["sop", "esop"] {
+            for k in lists(&terms, 2) {
+                l.states += 1;
+                rec(l, check_form(kind, 32, &k), format!("{}|32|{}", kind, show_key(&k)), kind, format!("kind={};n=32;k={}", kind, show_key(&k)), k.len() as u64);
+            }
+        }
+    });
     // two-digit indices
     run.section_seq("TWO-DIGIT indices: all cubes/ecubes with <= 3 literals over {0,1,2,9,10,11,12,19,20,21,30,31}; forms of <= 2 such terms", false, "x1x0 vs x10 ambiguity would surface as a wrong value or a collision", |l| {
         let idx: [u32; 12] = [0, 1, 2, 9, 10, 11, 12, 19, 20, 21, 30, 31];
